@@ -207,6 +207,60 @@ def _effect_free(fn):
     return True
 
 
+def _restore_names(fn):
+    """locals of an inlined helper that were renamed (v__iK) to avoid a clash get their own name back when nothing called v lives
+    in the stretch of code they occupy (two inlined copies of one helper, one after the other, then read like the two original
+    blocks did)"""
+    import re
+    order = []
+
+    def rec(n):
+        if isinstance(n, (ast.expr_context, ast.operator, ast.unaryop, ast.boolop, ast.cmpop)):
+            return
+        order.append(n)
+        for c in ast.iter_child_nodes(n):
+            rec(c)
+    rec(fn)
+    pos = {id(n): k for k, n in enumerate(order)}
+    names = {}
+    for n in order:
+        if isinstance(n, ast.Name):
+            names.setdefault(n.id, []).append(n)
+    params = {a.arg for a in fn.args.posonlyargs + fn.args.args + fn.args.kwonlyargs}
+    for nm in sorted(names, key=lambda x: min(pos[id(o)] for o in names[x])):
+        m = re.match(r'^(\w+?)__i\d+$', nm)
+        if not m:
+            continue
+        base = m.group(1)
+        if base in params or base.startswith('ret'):
+            continue
+        lo = min(pos[id(o)] for o in names[nm])
+        hi = max(pos[id(o)] for o in names[nm])
+        # the renamed local must not be live outside a loop it is re-bound in... keep it simple: no occurrence of `base` (or of another
+        # renamed copy of it) inside [lo, hi]
+        clash = False
+        for other, occ in names.items():
+            if other == nm:
+                continue
+            if other == base or re.match(r'^%s__i\d+$' % re.escape(base), other):
+                if any(lo <= pos[id(o)] <= hi for o in occ):
+                    clash = True
+        # and the stretch must not sit inside a loop that also contains occurrences of base outside the stretch (values carried around)
+        if not clash:
+            for lp in [x for x in order if isinstance(x, (ast.For, ast.While))]:
+                inside = {id(y) for y in ast.walk(lp)}
+                if any(id(o) in inside for o in names[nm]) and not all(id(o) in inside for o in names[nm]):
+                    continue
+                if any(id(o) in inside for o in names[nm]) and any(id(o) in inside for o in names.get(base, [])):
+                    clash = True
+        if clash:
+            continue
+        for o in names[nm]:
+            o.id = base
+        names.setdefault(base, []).extend(names[nm])
+        names[nm] = []
+
+
 class _Fold(ast.NodeTransformer):
     """fold `if <literal>` / `<a> if <literal> else <b>` / `not <literal>` left by binding literal arguments"""
 
@@ -317,6 +371,8 @@ class Expander:
         fn = _Fold().visit(fn)
         if not fn.body:
             fn.body = [ast.Pass()]
+        if depth == 0:
+            _restore_names(fn)
         ast.fix_missing_locations(fn)
         return fn
 
